@@ -716,41 +716,71 @@ def probe_parse_scalar() -> tuple[bool, str]:
     return bool(bad), "; ".join(bad[:3]) or f"{len(PARSE_SCALAR_TEXTS)} scalar texts x 3 positions: parser value == token value"
 
 
-def parse_scalar_obs(P: str) -> list[Ob]:
+def probe_parse_layout() -> tuple[bool, str]:
+    """concrete stand-in for the layout contracts: differently laid out texts read as the tree of the canonical layout
+    (compared through the canonical emission)"""
+    from octave_mcp.core.emitter import emit
+    from octave_mcp.core.parser import parse
+
+    canon = '===DOC===\nB:\n  K::5\n  J::[a,2]\nT::"x y"\n===END===\n'
+    want = emit(parse(canon))
+    bad = []
+    variants = {f"indent {n}": f'===DOC===\nB:\n{" " * n}K::5\n{" " * n}J::[a,2]\nT::"x y"\n===END===\n' for n in (1, 3, 4, 7, 8)}
+    variants["blank lines"] = '===DOC===\n\nB:\n\n  K::5\n\n  J::[a,2]\n\nT::"x y"\n\n===END===\n'
+    variants["multi-line list"] = '===DOC===\nB:\n  K::5\n  J::[\n    a,\n    2\n  ]\nT::"x y"\n===END===\n'
+    variants["no end"] = '===DOC===\nB:\n  K::5\n  J::[a,2]\nT::"x y"\n'
+    variants["no end, blank"] = '===DOC===\nB:\n  K::5\n  J::[a,2]\nT::"x y"\n\n'
+    for name, text in variants.items():
+        try:
+            got = emit(parse(text))
+        except Exception as e:  # noqa: BLE001
+            bad.append(f"{name}: {type(e).__name__}: {e}")
+            continue
+        if got != want:
+            bad.append(f"{name}: reads as {got!r}, the canonical layout as {want!r}")
+    return bool(bad), "; ".join(bad[:3]) or f"{len(variants)} layouts read as the canonical tree"
+
+
+def _contract_group(group, probe=None, probe_ref: str = "props.lexical:probe_parse_scalar"):
     from contracts import parse_scalar as PS
     from verif.common import shape_verdict
     from verif.pyvc.adapter import contract_outcome
 
-    def make(group):
-        def fn(ctx: Ctx) -> Outcome:
-            total = dis = 0
-            wits: list[Witness] = []
-            undecided = []
-            extra: dict = {}
-            backends: dict = {}
-            for ref in group(ctx):
-                c = eval("PS." + ref, {"PS": PS})  # noqa: S307 - refs are built below from constant kind names
-                out = contract_outcome(c, f"contracts.parse_scalar:{ref}")
-                total += out.count or 0
-                dis += out.discharged or 0
-                for k, v in (out.extra or {}).get("by_backend", {}).items():
-                    b = backends.setdefault(k, [0, 0.0])
-                    b[0] += v[0]
-                    b[1] = round(b[1] + v[1], 3)
-                extra = {k: v for k, v in (out.extra or {}).items() if k in ("inlined", "opaque_calls")} or extra
-                if out.status == "refuted":
-                    wits += out.witnesses
-                elif out.status != "discharged":
-                    undecided.append(f"{ref}: {out.detail[:160]}")
-            extra = dict(extra, by_backend=backends)
-            if wits:
-                return Outcome.refuted("pyvc/z3", wits[:6], count=total, discharged=dis, **extra)
-            if undecided:
-                return shape_verdict("pyvc", undecided, probe_parse_scalar, total or 1, {"runner": "props.lexical:probe_parse_scalar", "args": {}})
-            return Outcome.ok("pyvc/z3", count=total, **extra)
+    def fn(ctx: Ctx) -> Outcome:
+        total = dis = 0
+        wits: list[Witness] = []
+        undecided = []
+        extra: dict = {}
+        backends: dict = {}
+        for ref in group(ctx):
+            c = eval("PS." + ref, {"PS": PS})  # noqa: S307 - refs are built below from constant kind names
+            out = contract_outcome(c, f"contracts.parse_scalar:{ref}")
+            total += out.count or 0
+            dis += out.discharged or 0
+            for k, v in (out.extra or {}).get("by_backend", {}).items():
+                b = backends.setdefault(k, [0, 0.0])
+                b[0] += v[0]
+                b[1] = round(b[1] + v[1], 3)
+            extra = {k: v for k, v in (out.extra or {}).items() if k in ("inlined", "opaque_calls")} or extra
+            if out.status == "refuted":
+                wits += out.witnesses
+            elif out.status != "discharged":
+                undecided.append(f"{ref}: {out.detail[:160]}")
+        extra = dict(extra, by_backend=backends)
+        if wits:
+            return Outcome.refuted("pyvc/z3", wits[:6], count=total, discharged=dis, **extra)
+        if undecided:
+            return shape_verdict("pyvc", undecided, probe or probe_parse_scalar, total or 1, {"runner": probe_ref, "args": {}})
+        return Outcome.ok("pyvc/z3", count=total, **extra)
 
-        return fn
+    return fn
 
+
+
+def parse_scalar_obs(P: str) -> list[Ob]:
+    from contracts import parse_scalar as PS
+
+    make = _contract_group
     pv = "octave_mcp.core.parser:Parser.parse_value"
     pl = "octave_mcp.core.parser:Parser.parse_list"
     ps = "octave_mcp.core.parser:Parser.parse_section"
@@ -768,3 +798,23 @@ def parse_scalar_obs(P: str) -> list[Ob]:
     obs.append(Ob(f"{P}.P.read.block", "P", "Parser.parse_section on NAME: / indented KEY::<scalar> returns Block(NAME, [Assignment(key text, the scalar token's value)])", [ps, pv], make(lambda ctx: [f"block_child({k!r})" for k in PS.KINDS])))
     obs.append(Ob(f"{P}.P.read.document", "P", "Parser.parse_document on ===DOC=== / KEY::<scalar> / ===END=== returns Document(DOC, [Assignment(key text, the scalar token's value)])", [pd, ps, pv], make(lambda ctx: [f"document({k!r})" for k in PS.KINDS])))
     return obs
+
+
+def parse_layout_obs(P: str) -> list[Ob]:
+    """C03 at the parser level: the lenient layout freedoms give the tree of the canonical layout, for all values"""
+    from contracts import parse_scalar as PS
+
+    def make(group):
+        return _contract_group(group, probe_parse_layout, "props.lexical:probe_parse_layout")
+
+    ps = "octave_mcp.core.parser:Parser.parse_section"
+    pl = "octave_mcp.core.parser:Parser.parse_list"
+    pd = "octave_mcp.core.parser:Parser.parse_document"
+    pv = "octave_mcp.core.parser:Parser.parse_value"
+    return [
+        Ob(f"{P}.P.read.indent", "P", "indentation width: NAME: / KEY::<scalar> indented by ANY n >= 1 spaces (INDENT value symbolic) reads as the same Block", [ps, pv], make(lambda ctx: [f"block_child_lenient({k!r}, False)" for k in PS.KINDS])),
+        Ob(f"{P}.P.read.blank-lines", "P", "blank lines after a block header, after a child, around a top-level assignment read as the same tree", [ps, pd, pv], make(lambda ctx: [f"block_child_lenient({k!r}, True)" for k in PS.KINDS] + [f"document_lenient({k!r}, 'blank')" for k in PS.KINDS])),
+        Ob(f"{P}.P.read.multi-line-list", "P", "a list written one item per line (any indentation widths) reads as the items of the one-line list", [pl, pv], make(lambda ctx: [f"list_multiline({a!r}, {b!r})" for a, b in PS.pairs(ctx.thorough)])),
+        Ob(f"{P}.P.read.no-end", "P", "an omitted ===END=== (with and without blank lines) reads as the same Document", [pd, ps, pv], make(lambda ctx: [f"document_lenient({k!r}, {v!r})" for k in PS.KINDS for v in ("no-end", "both")])),
+        Ob(f"{P}.P.read.optional-quotes", "P", "a plain word reads as the same str whether it arrives as a STRING or as an IDENTIFIER token (parse_value returns the token's value in both cases, every follow context)", [pv], make(lambda ctx: [f"standalone({k!r}, {f!r})" for k in ("STRING", "IDENTIFIER") for f in PS.FOLLOW])),
+    ]
